@@ -29,9 +29,6 @@ impl SubSpecImpl<C> for C { open spec fn obeys_sub_spec() -> bool { false } open
 impl core::ops::Sub<C> for C { type Output = C; #[verifier::external_body] fn sub(self, rhs: C) -> (r: C) ensures r@ == csub(self@, rhs@) { unimplemented!() } }
 impl MulSpecImpl<C> for C { open spec fn obeys_mul_spec() -> bool { false } open spec fn mul_req(self, rhs: C) -> bool { true } open spec fn mul_spec(self, rhs: C) -> C { arbitrary() } }
 impl core::ops::Mul<C> for C { type Output = C; #[verifier::external_body] fn mul(self, rhs: C) -> (r: C) ensures r@ == cmul(self@, rhs@), r@ == cmul(rhs@, self@) { unimplemented!() } }
-// division: the divisor must not be zero (an obligation at every call site: 0/0 and x/0 are NaN/inf in floating point)
-impl DivSpecImpl<C> for C { open spec fn obeys_div_spec() -> bool { false } open spec fn div_req(self, rhs: C) -> bool { rhs@ != czero() } open spec fn div_spec(self, rhs: C) -> C { arbitrary() } }
-impl core::ops::Div<C> for C { type Output = C; #[verifier::external_body] fn div(self, rhs: C) -> (r: C) ensures r@ == cdiv(self@, rhs@) { unimplemented!() } }
 impl NegSpecImpl for C { open spec fn obeys_neg_spec() -> bool { false } open spec fn neg_req(self) -> bool { true } open spec fn neg_spec(self) -> C { arbitrary() } }
 impl core::ops::Neg for C { type Output = C; #[verifier::external_body] fn neg(self) -> (r: C) ensures r@ == cneg(self@) { unimplemented!() } }
 impl SubAssignSpecImpl<C> for C { open spec fn obeys_sub_assign_spec() -> bool { false } open spec fn sub_assign_req(&self, rhs: C) -> bool { true } open spec fn sub_assign_spec(&self, rhs: C) -> &Self { arbitrary() } }
